@@ -22,6 +22,7 @@ def apply (w : Word) (b : DS) : Res × DS :=
     | none => (some .nan, b)
   | ['h'] => b.shift 2
   | ['a', 'n', 'd'] => if !b.isEmpty then (some .incomplete, b) else (some .nan, b)
+  | ['c', 'j'] => (some .incomplete, b)   -- unguarded conjunction, not a linking word (German `und`, Dutch `en`)
   | _ => (some .nan, b)
 
 def applyDecimal (w : Word) (b : DS) : Res × DS :=
